@@ -49,7 +49,7 @@ func H_C13_reuse() {
 	}
 }
 
-// H_C13_nested: an Either is also an ordinary value.  A step that SUCCEEDS with an Either as
+// H_C13_nested: an Either - and an error value delivered by .err - is also an ordinary value.  A step that SUCCEEDS with an Either as
 // its result (failed or not) makes a successful chain holding that Either; a chain started
 // on an Either calls its steps on that Either.
 func H_C13_nested() {
@@ -57,11 +57,15 @@ func H_C13_nested() {
 	v := rt.Int64()
 	rt.Assume(v > 2 && v < 1000)
 	h.Set("v", object.NewPanInt(v))
-	failedInner := rt.Bool()
-	if failedInner {
+	innerKind := rt.Choice(3) // a failed Either, a successful Either, or an error VALUE (as delivered by .err)
+	failedInner := innerKind == 0
+	switch innerKind {
+	case 0:
 		h.Eval(`inner := v.try.{|x| x / 0}`)
-	} else {
+	case 1:
 		h.Eval(`inner := v.try.+(1)`)
+	default:
+		h.Eval(`inner := v.try.{|x| x / 0}.err`)
 	}
 	inner := h.Eval(`inner`)
 	form := rt.Choice(3)
@@ -77,6 +81,13 @@ func H_C13_nested() {
 	a, ok := h.EvalNoPanic(`r.A`).(*object.PanArr)
 	rt.Assert(ok && len(a.Elems) == 2 && a.Elems[0] == inner && isNil(a.Elems[1]), "A is [value, nil] when no step failed")
 	rt.Assert(h.EvalNoPanic(`r.abandon`) == inner, "abandon returns the value when no step failed")
+	if innerKind == 2 {
+		// a chain started on an error value: its steps are called on that value
+		q := h.EvalNoPanic(`inner.try.{|e| e.msg}.A`)
+		qa, ok := q.(*object.PanArr)
+		rt.Assert(ok && len(qa.Elems) == 2 && qa.Elems[0].Type() == object.StrType && isNil(qa.Elems[1]), "a chain started on an error value calls its steps with that value")
+		return
+	}
 	// a chain started on an Either: its steps are called on that Either
 	q := h.EvalNoPanic(`inner.try.{|e| e.err?}.A`)
 	qa, ok := q.(*object.PanArr)
